@@ -684,3 +684,43 @@ Theorem C02_static_from_metadata : forall c tr,
 Proof. exact SysStaticProofs.static_from_runtime_metadata. Qed.
 Print Assumptions C02_static_from_metadata.
 (* ==== end of block (SysStaticDefs) ==== *)
+
+(* ==== runtime metadata functions from source (unit rtmeta) ==== *)
+(* Gen/RtMeta_gen.v is REGENERATED on every run from src/rt/ovni.c by translate/units/rtmeta.py (stage-C core _stagec.py
+   unchanged + the unit's wrappers for globals, strings, die(), snprintf, malloc/DL_APPEND) over the prelude Rt/RtMetaPre.v
+   (parson's object API with the meaning of Rt/RtMetaDefs.v, rproc / rthread as state, die() = E_DIE, the stream.json
+   files written).  Generated statement by statement: thread_metadata_store, ovni_thread_require, thread_metadata_populate,
+   thread_metadata_init, set_thread_rank, ovni_add_cpu, ovni_proc_set_rank, get_thread_metadata, ovni_attr_has,
+   ovni_attr_set_double / boolean / str / json, ovni_attr_get_double / boolean / str / json, ovni_attr_flush, ovni_thread_free.
+   Primitive: set_thread_cpus (for loop), the calls outside the metadata state.
+
+   rs_of s th node out = the view thread th has of the model state s (rproc, its rthread, files written); `agrees` = die()
+   iff the model's step is ODie, and a return iff ODone with the view of the NEW model state, the file written appended
+   under <procdir>/thread.<tid>/stream.json, and the returned value related as stated per call (call_agrees).  path_ok: the
+   path fits PATH_MAX.  Proved for: ovni_add_cpu, ovni_proc_set_rank, ovni_thread_require, ovni_attr_set_* (4),
+   ovni_attr_has, ovni_attr_get_* (4), ovni_attr_flush (with thread_metadata_store, get_thread_metadata).  NOT proved
+   equal to the model here: ovni_thread_free and thread_metadata_init / populate (generated and compiled; the model's
+   ThreadFree / ThreadInit cases remain tied by the tree comparison of the rtmeta family only). *)
+From OV Require Rt.RtMetaPre Gen.RtMeta_gen Proofs.RtMetaGenProofs.
+Module MetaSrc.
+Import RtMetaDefs RtMetaPre RtMeta_gen RtMetaGenProofs.
+
+Theorem C02_metadata_calls_from_source : forall sx s th node out o,
+  path_ok sx (t_tid (tget (st_threads s) th)) = true -> call_agrees sx s th node out o.
+Proof. exact metadata_calls_from_source. Qed.
+Print Assumptions C02_metadata_calls_from_source.
+
+(* whole programs: along the model's run every call is what the generated function computes from the view of the current
+   model state, leaving the view of the next: C02_metadata_complete / _stream_metas / _builds_system (statements about
+   RtMetaDefs.run with the constants src_cfg of the configured ovni.h) are statements about the translated calls *)
+Theorem C02_metadata_runs_from_source : forall sx,
+  (forall tid, path_ok sx tid = true) -> forall p s, run_agrees sx s p.
+Proof. exact metadata_runs_from_source. Qed.
+Print Assumptions C02_metadata_runs_from_source.
+
+(* the model's constants are those of the source: the theorems above are instantiated at src_cfg, whose model version
+   parses (hypothesis of C02_metadata_complete) *)
+Example C02_src_cfg_ok : VersionDefs.version_parse (Some (c_model_version src_cfg)) <> None.
+Proof. vm_compute. discriminate. Qed.
+End MetaSrc.
+(* ==== end of block (unit rtmeta) ==== *)
